@@ -19,6 +19,7 @@ import (
 const header = `Binde "Duden/Listen" ein.
 Binde "Duden/Texte" ein.
 Binde "Duden/Sortierung" ein.
+Binde "Duden/Zeichen" ein.
 
 `
 
@@ -44,6 +45,8 @@ func ddpParams(f fn) []ddp.Param {
 			ps = append(ps, ddp.Param{Name: "y", Type: "Zahl"})
 		case pZ:
 			ps = append(ps, ddp.Param{Name: "z", Type: "Buchstabe"})
+		case pTextL:
+			ps = append(ps, ddp.Param{Name: "l", Type: "Text Liste"})
 		}
 	}
 	return ps
@@ -63,6 +66,8 @@ func ddpRet(f fn) string {
 		return "eine Buchstaben Liste"
 	case "textlist":
 		return "eine Text Liste"
+	case "char":
+		return "einen Buchstaben"
 	}
 	return "nichts"
 }
@@ -152,10 +157,13 @@ func Run(r *core.Report, env *build.Env) {
 		if f.fam == "text" {
 			ws = widths
 		}
-		hasB := false
+		hasB, hasTL := false, false
 		for _, p := range f.params {
 			if p == pListB || p == pTextB {
 				hasB = true
+			}
+			if p == pTextL {
+				hasTL = true
 			}
 		}
 		for _, w := range ws {
@@ -168,6 +176,13 @@ func Run(r *core.Report, env *build.Env) {
 					}
 					if f.sameLen {
 						ms = []int{n}
+					}
+				}
+				if hasTL {
+					// every arrangement of empty and one-character elements
+					ms = nil
+					for m := 0; m < 1<<n; m++ {
+						ms = append(ms, m)
 					}
 				}
 				for _, m := range ms {
@@ -213,6 +228,9 @@ func (x *ctx) cell(f fn, n, m, w int) {
 	for _, p := range f.params {
 		if p == pListB || p == pTextB {
 			name += fmt.Sprintf("m%d", m)
+		}
+		if p == pTextL {
+			name += fmt.Sprintf("p%d", m)
 		}
 	}
 	if f.fam == "text" {
@@ -292,6 +310,24 @@ func (x *ctx) cell(f fn, n, m, w int) {
 			var t *llh.Text
 			t, bCPs, v.b = mkText("b", m)
 			args = append(args, h.Ptr(t.Hdr))
+		case pTextL:
+			cp := n
+			if n > 0 {
+				cp = n + 1
+			}
+			tl := h.ConcList("l", 16, n, cp, false)
+			for i := 0; i < n; i++ {
+				var cps []llh.CP
+				var el []*smt.Expr
+				if m&(1<<i) != 0 {
+					cp := h.SymCP(fmt.Sprintf("l%d", i), w)
+					cps = append(cps, cp)
+					el = append(el, cp.V)
+				}
+				h.TextOfCPs(fmt.Sprintf("l%d", i), cps, tl.Arr, int64(i*16))
+				v.parts = append(v.parts, el)
+			}
+			args = append(args, h.Ptr(tl.Hdr))
 		case pX:
 			v.x = h.Var("x", 64)
 			args = append(args, llse.Val{E: v.x})
